@@ -1320,15 +1320,17 @@ class ReftableRefsContainer(RefsContainer):
             # Remove old files and update tables.list
             tables_list_path = os.path.join(self.reftable_dir, "tables.list")
 
-            # Remove old .ref files
-            for name in os.listdir(self.reftable_dir):
-                if name.endswith(".ref") and name not in created_files:
-                    os.remove(os.path.join(self.reftable_dir, name))
-
             # Write new tables.list with separate files
             with GitFile(tables_list_path, "wb") as f:
                 for filename in sorted(created_files):  # Sort for deterministic order
                     f.write((filename + "\n").encode())
+
+            # Remove old .ref files, only now that no list names them: if
+            # the list could not be replaced (lock held, write error) the
+            # old one stays valid.
+            for name in os.listdir(self.reftable_dir):
+                if name.endswith(".ref") and name not in created_files:
+                    os.remove(os.path.join(self.reftable_dir, name))
 
         self._pending_updates.clear()
 
@@ -1462,14 +1464,15 @@ class ReftableRefsContainer(RefsContainer):
         """Compact tables list to single file like Git does."""
         tables_list_path = os.path.join(self.reftable_dir, "tables.list")
 
-        # Remove old .ref files (Git's compaction behavior)
-        for name in os.listdir(self.reftable_dir):
-            if name.endswith(".ref") and name != new_table_name:
-                os.remove(os.path.join(self.reftable_dir, name))
-
         # Write new tables.list with just the consolidated file
         with GitFile(tables_list_path, "wb") as f:
             f.write((new_table_name + "\n").encode())
+
+        # Remove old .ref files (Git's compaction behavior), after the list
+        # that named them has been replaced
+        for name in os.listdir(self.reftable_dir):
+            if name.endswith(".ref") and name != new_table_name:
+                os.remove(os.path.join(self.reftable_dir, name))
 
     def _update_tables_list(self) -> None:
         """Update the tables.list file with current table files."""
